@@ -4,7 +4,7 @@
    re-walking what is already there is a no-op; invariance of the final dump under PERMUTATION of
    the requests is decided by the correspondence run over permutations and partitions, not by a
    theorem) *)
-Require Import Gengo.Base.Str Gengo.Model.Universe Gengo.Proofs.UniverseProofs.
+Require Import Gengo.Base.Str Gengo.Model.Universe Gengo.Proofs.UniverseProofs Gengo.Proofs.CanonProofs.
 
 Theorem C11_split_is_sequence : forall v2 p fuel gs1 gs2 w,
   fold_left (add_package v2 p fuel) (gs1 ++ gs2) w =
@@ -31,6 +31,31 @@ Theorem C11_rewalk_noop : forall v2 p f u use t tstr sh o,
 Proof. exact walk_noop. Qed.
 Print Assumptions C11_rewalk_noop.
 
+(* which object a name denotes does not depend on the history: after any lookups and any sequence
+   of loads, in any order and grouping, a key resolves to canon(key) (the shared singleton for a
+   builtin key, the entry of that very name otherwise); so two histories never disagree, and the
+   identity map on names is the isomorphism between their universes as far as object identity
+   goes.  named_ok is the shape of go/types' output (the underlying type of a defined type is an
+   unnamed composite); it is decidable (named_okb) and checked on every program of every run *)
+Theorem C11_histories_agree_on_objects : forall v2 p fuel, named_ok v2 p -> forall pre1 pre2 gs1 gs2 pk1 pk2 w1 w2 k o1 o2,
+  fold_left (add_package v2 p fuel) gs1 (Some {| w_u := lookups v2 {| objs := []; tkeys := [] |} pre1; w_pkgs := pk1 |}) = Some w1 ->
+  fold_left (add_package v2 p fuel) gs2 (Some {| w_u := lookups v2 {| objs := []; tkeys := [] |} pre2; w_pkgs := pk2 |}) = Some w2 ->
+  nlookup k (tkeys (w_u w1)) = Some o1 -> nlookup k (tkeys (w_u w2)) = Some o2 -> o1 = o2.
+Proof. exact histories_agree_on_objects. Qed.
+Print Assumptions C11_histories_agree_on_objects.
+
+(* the object returned for a type occurrence is a function of the program text and the
+   occurrence only: the same in every (canonical) universe *)
+Theorem C11_walk_result_independent_of_universe : forall v2 p, named_ok v2 p -> forall f1 f2 u1 u2 use t u1' u2' o1 o2 k,
+  canonical v2 u1 -> canonical v2 u2 -> node_key v2 p use t = Some k ->
+  walk v2 p f1 u1 use t = Some (u1', o1) -> walk v2 p f2 u2 use t = Some (u2', o2) -> o1 = o2.
+Proof. exact walk_same_object_everywhere. Qed.
+Print Assumptions C11_walk_result_independent_of_universe.
+
+Theorem C11_named_ok_decidable : forall v2 p, named_okb v2 p = true -> named_ok v2 p.
+Proof. exact named_okb_sound. Qed.
+Print Assumptions C11_named_ok_decidable.
+
 Definition ex_prog : prog :=
   [(1, (s "p.T", SNamed 1 2 [] [] None)); (2, (s "struct{A int}", SStruct [(s "A", false, [], 3)])); (3, (s "int", SBasic (s "int")))]%N.
 Definition ex_pkg : gpkg := {| g_path := s "p"; g_name := s "p"; g_requested := true; g_imports := []; g_scope := [OType 1%N] |}.
@@ -38,4 +63,6 @@ Example C11_example :
   match build false ex_prog 10 [ex_pkg], build false ex_prog 10 [ex_pkg; ex_pkg] with
   | Some w1, Some w2 => w_u w1 = w_u w2 /\ kind_of (w_u w1) (s "p", s "T") = s "Struct"
   | _, _ => False end.
+Proof. vm_compute. split; reflexivity. Qed.
+Example C11_example_named_ok : named_okb false ex_prog = true /\ named_okb true ex_prog = true.
 Proof. vm_compute. split; reflexivity. Qed.
